@@ -4,6 +4,11 @@ import RxVerif.Spec.Eval
 import RxVerif.Conc.Observer
 import RxVerif.Conc.ToVec
 import RxVerif.Conc.Queue
+import RxVerif.Conc.SctlCosim
+import RxVerif.Conc.HandoffCosim
+import RxVerif.Conc.SubjCosim
+import RxVerif.Conc.LockOrder
+import RxVerif.Conc.Timed
 import RxVerif.Spec.CombEval
 open Rx
 
@@ -21,10 +26,14 @@ def oracleLine (caseLine obsLine : String) : String :=
     let selfUnsub := steps.any fun s => match s with
       | .list [.atom "sub", _, r] => sexpMentions "unsub" r
       | _ => false
+    -- every tap of the case is subscribed exactly once: one `sub` step and no resubscribing operator
+    let tapOnce := (steps.filter fun s => match s with | .list (.atom "sub" :: _) => true | _ => false).length == 1 &&
+      !(["retry", "retry_when", "repeat", "on_error_resume_next", "flat_map", "switch_on_next", "concat", "conn", "def"].any
+          fun a => steps.any (sexpMentions a))
     let fmt := fun (name : String) (r : Option String) =>
       name ++ "=" ++ (match r with | none => "ok" | some m => "VIOL(" ++ m.replace " " "_" ++ ")")
     id ++ " " ++ " ".intercalate [
-      fmt "C01" (Oracle.contract obs),
+      fmt "C01" ((Oracle.contract obs).orElse fun _ => if tapOnce then Oracle.contractTap obs else none),
       fmt "C05" (Oracle.c05 obs unsubAt selfUnsub),
       fmt "C06" (Oracle.c06 obs unsubAt),
       fmt "C07" (Oracle.c07 obs),
@@ -110,7 +119,29 @@ def cosimLine (model : String) (line : String) : String :=
           let k := Queue.acceptedPrefix cfg (Queue.init cfg) ls
           id ++ " REJECT label " ++ toString (k + 1) ++ " not enabled: " ++ ((ls[k]?).map toString).getD "?"
     | _ => id ++ " REJECT malformed payload"
+  | "handoff" => id ++ Handoff.Cosim.cosim payload
+  | "subjlts" => id ++ Conc.SubjCosim.cosim payload
+  | "sctl" | "take" | "amb" | "zip" => id ++ Conc.sctlCosimPayload model payload
   | _ => id ++ " REJECT unknown model"
+
+/-- `LOCKCERT <id> seed=<s> | <lock>:<rank>,… | <tid> A|R <lock>;…` — a recorded lock trace of the real code with a
+    rank certificate computed by the harness; re-checked by the verified checker `Rx.LockOrder.checkTrace`
+    (soundness: `Rx.LockOrder.checkTrace_sound_ranked`, then `ranked_no_deadlock_strong`) -/
+def lockrankLine (line : String) : String :=
+  match line.splitOn " | " with
+  | [hd, ranks, evs] =>
+    let id := ((hd.splitOn " ").filter (· ≠ "")).getD 1 "?"
+    let rk : List (Nat × Nat) := (ranks.splitOn ",").filterMap fun p =>
+      match p.splitOn ":" with
+      | [a, b] => do pure ((← a.trimAscii.toString.toNat?), (← b.trimAscii.toString.toNat?))
+      | _ => none
+    let rank : Nat → Nat := fun l => ((rk.find? (·.1 == l)).map (·.2)).getD 0
+    let es := (evs.splitOn ";").filter (fun l => l.trimAscii.toString ≠ "")
+    match LockOrder.checkTraceText rank es with
+    | some true => id ++ " OK events=" ++ toString es.length ++ " locks=" ++ toString rk.length
+    | some false => id ++ " FAIL the trace is not rank-consistent with its certificate"
+    | none => id ++ " PARSE"
+  | _ => "? PARSE"
 
 partial def loopCosim (model : String) (h out : IO.FS.Stream) : IO Unit := do
   let line ← h.getLine
@@ -143,6 +174,8 @@ def main (args : List String) : IO Unit := do
   | ["oracle"] => loopOracle stdin stdout
   | ["spec"] => loopSpec stdin stdout
   | ["cosim", m] => loopCosim m stdin stdout
+  | ["lockrank"] => loopMap lockrankLine stdin stdout
+  | ["timed"] => loopMap Timed.expectedLine stdin stdout
   | ["comb"] => loopMap CombEval.combLine stdin stdout
   | ["subjm"] => loopMap CombEval.subjLine stdin stdout
   | ["connm"] => loopMap CombEval.connLine stdin stdout
